@@ -100,6 +100,20 @@ func (ex *Exec) execCommon(st *State, c *ssa.CallCommon, site ssa.Value, pos tok
 	if b, ok := c.Value.(*ssa.Builtin); ok {
 		return ex.execBuiltin(st, b, c, site)
 	}
+	if len(ex.nonNilPending) > 0 {
+		// an object under construction that is handed to a callee must already satisfy its never-nil fields
+		handed := []string{}
+		if c.IsInvoke() || c.StaticCallee() == nil {
+			handed = append(handed, ex.val(st, c.Value).s)
+		}
+		for _, a := range c.Args {
+			if _, isAddr := ex.locs[a]; isAddr {
+				continue
+			}
+			handed = append(handed, ex.val(st, a).s)
+		}
+		ex.nonNilCheckpointFor(st, "call", pos, handed)
+	}
 	var args []T
 	evalArgs := func() {
 		if args != nil {
